@@ -124,6 +124,11 @@ class Renderer:
             c = t(f["c"])
             return {"if": "if (%s) ;", "while": "while (%s) ;", "do": "do ; while (%s);", "for": "for (; %s; ) ;",
                     "switch": "switch (%s) { default: ; }"}[f["kw"]] % c
+        if fm == "enumfix":
+            mag = 0 if f["k"] < 0 else (1 << f["k"]) + f["d"]
+            lit = ("-" if f["neg"] else "") + hex(mag) + {"int": "", "unsigned": "u", "long": "L", "ulong": "UL"}[f["ty"]]
+            spec = "enum zf : %s { ZA = %s }" % (f["ub"], lit)
+            return "unsigned long zsz = sizeof(%s);" % spec if f["wrap"] else spec + ";"
         if fm == "cinit":
             return "int zv = (%s == 0);" % self.expr(f["of"])
         if fm == "sinit":
